@@ -66,8 +66,9 @@ func Rotation(radians fl) Transform {
 
 // Skew returns a skew transformation
 func Skew(thetax, thetay fl) Transform {
-	b, c := fl(math.Tan(float64(thetax))), fl(math.Tan(float64(thetay)))
-	return Transform{1, b, c, 1, 0, 0}
+	tanx, tany := fl(math.Tan(float64(thetax))), fl(math.Tan(float64(thetay)))
+	// x_new = x + tan(thetax) * y ; y_new = tan(thetay) * x + y
+	return Transform{A: 1, B: tany, C: tanx, D: 1}
 }
 
 // Determinant returns the determinant of the matrix, which is
